@@ -57,7 +57,7 @@ ASSUMPTIONS = [
 ]
 TECHNIQUE = "property-based testing (Hypothesis): round-trip laws, output-alphabet scanners and a constructive reference for query strings"
 LEVEL_TEXT = (
-    "bounded exploration: a few thousand generated inputs per helper in the quick tier and ~120k per helper in "
+    "bounded exploration: a few thousand generated inputs per helper in the quick tier and ~60k per helper in "
     "the thorough tier, strings <=200 characters; no claim beyond the generated sizes"
 )
 SHARDS = 16
@@ -495,8 +495,7 @@ def render_field(units, must_encode):
     out = []
     feats = set()
     force_next = False
-    n = len(units)
-    for i, (b, mode) in enumerate(units):
+    for b, mode in units:
         if mode == "plus" and b != 0x20:
             mode = "raw"
         if b in must_encode and mode == "raw":
@@ -578,8 +577,8 @@ PARTS = {"html": run_html, "url": run_url, "json": run_json, "utf8": run_utf8, "
 
 def main(ctx):
     ctx.run_replays(PARTS)
-    ctx.explore(html_s, run_html, ctx.n(1200, 120000), name="html")
-    ctx.explore(url_s, run_url, ctx.n(1200, 120000), name="url")
-    ctx.explore(json_value, run_json, ctx.n(1200, 120000), name="json")
-    ctx.explore(utf8_s, run_utf8, ctx.n(1200, 120000), name="utf8")
-    ctx.explore(query_s, run_query, ctx.n(1200, 120000), name="query")
+    ctx.explore(html_s, run_html, ctx.n(1200, 60000), name="html")
+    ctx.explore(url_s, run_url, ctx.n(1200, 60000), name="url")
+    ctx.explore(json_value, run_json, ctx.n(1200, 60000), name="json")
+    ctx.explore(utf8_s, run_utf8, ctx.n(1200, 60000), name="utf8")
+    ctx.explore(query_s, run_query, ctx.n(1200, 60000), name="query")
